@@ -180,4 +180,14 @@ theorem tie_kcGetConds : kcGetConds =
      "if resp.ContentLength >= 0 && expectLength != resp.ContentLength", "if method == \"GET\"",
      "if count404 == numServers"] := rfl
 
+/-- `Model.C07_Ruby` `Ref.verifySignature`: the nested splits, the nil test and the arguments of
+`generate_signature` in blob.rb `verify_signature!` (first line: the same call in `sign_locator`) -/
+theorem tie_rbVerifyParse : rbVerifyParse =
+    ["generate_signature((opts[:key] or Rails.configuration.Collections.BlobSigningKey),",
+     "blob_hash = signed_blob_locator.split('+').first",
+     "given_signature, timestamp = signed_blob_locator.",
+     "split('+A').last.", "split('+').first.", "split('@')", "if !timestamp", "my_signature =",
+     "generate_signature((opts[:key] or Rails.configuration.Collections.BlobSigningKey),",
+     "blob_hash, opts[:api_token], timestamp, blob_signature_ttl)"] := rfl
+
 end ArvVerif.Tie.C07
